@@ -74,13 +74,21 @@ def mk(name, spec):
             raise EXC[INTR.split(':')[-1]]()
         ok = name not in SC['failing']
         ev(ev='end', t=name, ok=ok, digest=digest(spec['file_dep']))
+        if not ok and spec.get('kind') == 'interactive':
+            # a PythonInteractiveAction is "successful unless an exception is raised": returning False would be a success
+            raise RuntimeError('planted failure')
         return ok
     return act
 
 def gen():
     for name, spec in SC['tasks'].items():
         def creator(name=name, spec=spec):
-            d = {'basename': name, 'actions': [mk(name, spec)], 'file_dep': spec['file_dep'],
+            act = mk(name, spec)
+            if spec.get('kind') == 'interactive':
+                # doit.tools.PythonInteractiveAction: same contract as a python-action, no output capture
+                from doit.tools import PythonInteractiveAction
+                act = PythonInteractiveAction(act)
+            d = {'basename': name, 'actions': [act], 'file_dep': spec['file_dep'],
                  'task_dep': spec['task_dep']}
             if spec.get('teardown'):
                 d['teardown'] = [mk_td(name)]
@@ -147,7 +155,8 @@ def gen_scenario(rng, mode):
         if i and rng.random() < 0.3:
             deps.append('src_%d' % rng.randrange(i))      # a shared source
         tasks[nm] = {'file_dep': deps, 'task_dep': [names[j] for j in range(i) if rng.random() < 0.35],
-                     'teardown': rng.random() < 0.4}
+                     'teardown': rng.random() < 0.4,
+                     'kind': 'interactive' if rng.random() < 0.25 else 'py'}
     backend = rng.choice(BACKENDS)
     runner = rng.choices(['serial', 'process2', 'thread2'], [6, 1, 2])[0]
     pre = rng.choice(['none', 'run', 'run+edit', 'run+edit']) if mode == 'kill' else rng.choice(['none', 'run+edit'])
